@@ -360,7 +360,7 @@ fn inner_layout(s: &mut Src, name: &str, bits: u32, debug: bool) -> Layout {
             });
         }
     }
-    Layout { name: name.to_string(), base_bits: bits, default: None, default_colon: false, debug, fields, enums: vec![], inners: vec![], debug_first: false, vis: 0, decoys: 0 }
+    Layout { name: name.to_string(), base_bits: bits, default: None, default_colon: false, debug, fields, enums: vec![], inners: vec![], debug_first: false, vis: 0, decoys: 0, derives: 0 }
 }
 
 /// split w into `parts` positive integers
@@ -398,7 +398,7 @@ pub fn build_layout(p: &Profile, words: &[u32]) -> Layout {
 }
 
 pub fn build_layout_on(p: &Profile, s: &mut Src, bits: u32) -> Layout {
-    let mut l = Layout { name: "S".into(), base_bits: bits, default: None, default_colon: false, debug: p.debug, fields: vec![], enums: vec![], inners: vec![], debug_first: false, vis: 0, decoys: 0 };
+    let mut l = Layout { name: "S".into(), base_bits: bits, default: None, default_colon: false, debug: p.debug, fields: vec![], enums: vec![], inners: vec![], debug_first: false, vis: 0, decoys: 0, derives: 0 };
     let mut occupied = 0u128;
     let n_fields = s.range(1, p.max_fields);
     let mut forced_kind_done = p.force_kind.is_none();
@@ -754,13 +754,15 @@ pub fn build_layout_on(p: &Profile, s: &mut Src, bits: u32) -> Layout {
             2 => s.u128() & m & !rules::writable_mask(&l),
             _ => s.u128() & m,
         };
-        l.default = Some(DefaultDecl { value: v, named_const: l.base_native() && s.chance(1, 4), radix: s.pick(&[10u8, 16, 16, 2, 8, 17, 3]), const_name: None });
+        l.default = Some(DefaultDecl { value: v, named_const: l.base_native() && s.chance(1, 4), radix: s.pick(&[10u8, 16, 16, 2, 8, 17, 3, 110, 116, 102]), const_name: None });
         l.default_colon = s.chance(1, 4);
     }
     l.debug_first = l.debug && s.chance(1, 2);
     // restricted visibility of the struct (and with it of the builder type), used from the parent module
     l.vis = if s.chance(1, 5) { s.range(1, 2) as u8 } else { 0 };
     l.decoys = if (!l.enums.is_empty() || !l.inners.is_empty()) && s.chance(1, 6) { 1 } else { 0 };
+    // the user's own derives on the struct (passed through by the macro; see Layout::derives)
+    l.derives = if s.chance(1, 4) { s.range(1, 7) as u8 } else { 0 };
     l
 }
 
